@@ -185,6 +185,17 @@ def unit_apply_preprocessing(prop, tier=None, seed=None):
         need_details = z3.BoolVal(bool(st["ret_details"] and not st["details_nonempty"]))
         must_apply = z3.Or(z3.Not(same_req), need_details)
         # --- C06: skip-if-unchanged / re-apply otherwise
+        if prop == "C07":
+            # (C07: the steps must be run with the requested steps and option values -- or not at all when the
+            #  request is the one the columns already hold)
+            if calls:
+                c = calls[-1]
+                S.ensure("apply_gets_this_curve_and_the_request",
+                         c.get("apret") is idnt and not c["_args"]
+                         and I.truth(I.equals(c.get("identifiers"), es.obj))
+                         and I.truth(I.equals(c.get("options"), eo.obj)), case=case)
+            else:
+                S.ensure("same_request_changes_nothing", z3.Not(must_apply), case=case)
         if prop in ("C06", "C03"):
             if calls:
                 S.ensure("reapplied_only_when_needed", must_apply, case=case)
